@@ -75,8 +75,43 @@ def body_nonfinite_model(E, n, with_h, proj):
     E.reach('nonfinite-model:checked')
 
 
+def body_trsbox_nonfinite(E, n):
+    """box / unconstrained path: trsbox has no guard against a non-finite model; whatever g (NaN, +-inf) and H (+-inf) hold,
+    it must hand back a finite step inside the box without raising (the main loop takes scipy's norm of it)"""
+    np = E.np
+    xopt = E.vec('xo', n)
+    g = E.vec('g', n, xr=True)
+    Hd = E.vec('Hd', n, xr=True)
+    H = E.mat('H', n, n)
+    for i in range(n):
+        for j in range(n):
+            if j < i:
+                H[i, j] = H[j, i]
+        H[i, i] = Hd[i]
+        E.assume(E.no(E.isnan(Hd[i])))        # (H = 2 J^T J is symmetric; a NaN entry is refused by trsbox's own precondition)
+    sl = E.vec('sl', n)
+    su = E.vec('su', n)
+    delta = E.real('delta', npy=False)
+    E.assume(E.all([delta > 0] + [sl[i] <= xopt[i] for i in range(n)] + [xopt[i] <= su[i] for i in range(n)]))
+    E.assume(E.no(E.all([E.isfinite(v) for v in E.flat(g)] + [E.isfinite(v) for v in E.flat(Hd)])))
+    x0_ = xopt.copy()
+    try:
+        d, gnew, crvmin = E.get('trsbox')(xopt, g, H, sl, su, delta, use_fortran=False)
+    except Exception as e:     # noqa
+        E.fail('trsbox-nonfinite:raises-' + type(e).__name__, detail=str(e)[:160])
+        return
+    E.prove(E.all([E.isfinite(d[i]) for i in range(n)]), 'trsbox-nonfinite:step-is-finite')
+    xn = x0_ + d
+    E.prove(E.all([sl[i] <= xn[i] for i in range(n)] + [xn[i] <= su[i] for i in range(n)]), 'trsbox-nonfinite:step-inside-box')
+
+
 def harnesses(tier, seed):
     hs = step.step_harnesses(tier, seed, 'C08')
+    for n in ([1] if tier == 'quick' else [1, 2]):
+        hs.append(Harness("trsbox-nonfinite[n=%d]" % n, 'dfverif.checks.c08', 'body_trsbox_nonfinite', params=dict(n=n),
+                          cfg=core.Cfg(qtimeout_ms=20000, uflin=True), functions=['trust_region.trsbox', 'trust_region.alt_trust_step'],
+                          bounds="n=%d; g entries NaN / +-inf / finite, diagonal of H +-inf / finite, at least one entry not finite; box and radius symbolic" % n,
+                          assumptions=["H symmetric without NaN (trsbox's own precondition)"], nproc=None, wall_budget=300, max_replays=3))
     hs += [h for h in outer.outer_harnesses(tier, seed, 'C08') if 'bad-values' in h.name]
     hs += step.action_harnesses(tier, seed, 'C08')
     for (with_h, proj) in ((False, True), (True, True), (True, False)):
